@@ -161,9 +161,27 @@ def _apply_fields(x, fmap, single_variant):
     return x
 
 
+_LT = re.compile(r"(?<=[<,( &])'(?!static\b)(?!_\b)[a-z][a-z0-9_]*\b")
+
+
+def _anon_lifetimes(x):
+    """`impl<'a> MatcherIO<'a>` and `impl MatcherIO<'_>` name the same functions: lifetime parameters in paths and types
+    are written `'_` (as the reference inventory has them)"""
+    if isinstance(x, str):
+        return _LT.sub("'_", x) if "'" in x else x
+    if isinstance(x, list):
+        return [_anon_lifetimes(v) for v in x]
+    if isinstance(x, dict):
+        return {k: (_anon_lifetimes(v) if k != "sp" else v) for k, v in x.items()}
+    return x
+
+
 def run(records):
     """records: list of (json, crate), rewritten in place; returns a description of what was renamed"""
     info = {"functions": {}, "fields": {}}
+    for i, (j, c) in enumerate(records):
+        if j.get("kind") in ("fn", "impl", "trait", "adt") and c in ("findutils", "find", "xargs"):
+            records[i] = (_anon_lifetimes(j), c)
     fr = function_renames(records)
     if fr:
         pairs = sorted(fr.items(), key=lambda kv: -len(kv[0]))
